@@ -99,6 +99,33 @@ def do(op: dict) -> dict:
                         vals.append(err_enum(ex))
                 out.append({"listing": list(d["properties"]), "row": row, "names": names, "values": vals})
         return {"reads": out}
+    if kind == "hdrdet":
+        # a header/detail file: the header row is read with the HDR schema and KEPT without being looked at, the sheet is then
+        # bound to the DET schema for the remaining records, and only afterwards is the kept header row looked at
+        import stingray.workbook as WB
+        hdr = SI.SchemaMaker.from_json(list(CP.schema_iter(io.StringIO(op["hdr"])))[0])
+        det = SI.SchemaMaker.from_json(list(CP.schema_iter(io.StringIO(op["det"])))[0])
+        WATCH.append((hdr.json(), copy.deepcopy(hdr.json()), hdr, copy.deepcopy(hdr.json())))
+        WATCH.append((det.json(), copy.deepcopy(det.json()), det, copy.deepcopy(det.json())))
+        data = bytes.fromhex(op["data"])
+        wb = WB.COBOL_EBCDIC_File("history.data", file_object=io.BytesIO(data))
+        sheet = wb.sheet("")
+        sheet.set_schema(hdr)
+        rows = sheet.rows()
+        header_row = next(rows)
+        sheet.set_schema(det)
+        out: dict = {}
+        try:
+            out["details"] = [[repr(r.name(f).value()) for f in op["det_fields"]] for r in rows]
+        except BaseException as ex:  # noqa: BLE001
+            out["details"] = err_enum(ex)
+        try:
+            out["header"] = [repr(header_row.name(f).value()) for f in op["hdr_fields"]]
+        except BaseException as ex:  # noqa: BLE001
+            out["header"] = err_enum(ex)
+        if op.get("keep"):
+            KEEP.append((header_row.nav, {}))
+        return out
     if kind == "drop":
         KEEP.clear()
         gc.collect()
